@@ -361,10 +361,22 @@ func (s *Store[K, V]) GetWithSecodary(key K) (V, bool, error) {
 	return value, true, nil
 }
 
-func (s *Store[K, V]) policyNewEntry(hash uint64, shard *Shard[K, V], cost int64, entry *Entry[K, V], fromNVM bool) {
-	s.writeChan <- WriteBufItem[K, V]{
-		code: NEW, entry: entry, hash: hash, fromNVM: fromNVM, costChange: cost,
+// send queues an event for the maintenance goroutine. Once the store is closed
+// nobody receives from the queue any more, so a sender must not wait for room
+// in it: the event is dropped (the shards are empty and closed by then).
+func (s *Store[K, V]) send(item WriteBufItem[K, V]) bool {
+	select {
+	case s.writeChan <- item:
+		return true
+	case <-s.ctx.Done():
+		return false
 	}
+}
+
+func (s *Store[K, V]) policyNewEntry(hash uint64, shard *Shard[K, V], cost int64, entry *Entry[K, V], fromNVM bool) {
+	s.send(WriteBufItem[K, V]{
+		code: NEW, entry: entry, hash: hash, fromNVM: fromNVM, costChange: cost,
+	})
 }
 
 func (s *Store[K, V]) policyUpdateEntry(entry *Entry[K, V], hash uint64, cost, old int64, reschedule bool) {
@@ -372,10 +384,10 @@ func (s *Store[K, V]) policyUpdateEntry(entry *Entry[K, V], hash uint64, cost, o
 	// send cost change in event and apply them to entry policy weight
 	// so different order still works.
 	costChange := cost - old
-	s.writeChan <- WriteBufItem[K, V]{
+	s.send(WriteBufItem[K, V]{
 		entry: entry, code: UPDATE, costChange: costChange, rechedule: reschedule,
 		hash: hash,
-	}
+	})
 }
 
 type setShardResult[K comparable, V any] struct {
@@ -511,7 +523,7 @@ func (s *Store[K, V]) Delete(key K) {
 	}
 	shard.mu.Unlock()
 	if ok {
-		s.writeChan <- WriteBufItem[K, V]{entry: entry, code: REMOVE, hash: h}
+		s.send(WriteBufItem[K, V]{entry: entry, code: REMOVE, hash: h})
 	}
 }
 
@@ -531,7 +543,7 @@ func (s *Store[K, V]) DeleteWithSecondary(key K) error {
 	}
 	shard.mu.Unlock()
 	if ok {
-		s.writeChan <- WriteBufItem[K, V]{entry: entry, code: REMOVE}
+		s.send(WriteBufItem[K, V]{entry: entry, code: REMOVE})
 	}
 	return err
 }
@@ -1016,8 +1028,17 @@ func (s *Store[K, V]) Wait() {
 	id := s.waitSeq
 	s.waiters[id] = ch
 	s.waitMu.Unlock()
-	s.writeChan <- WriteBufItem[K, V]{code: WAIT, hash: id}
-	<-ch
+	if !s.send(WriteBufItem[K, V]{code: WAIT, hash: id}) {
+		// closed: there is nothing left to wait for
+		s.waitMu.Lock()
+		delete(s.waiters, id)
+		s.waitMu.Unlock()
+		return
+	}
+	select {
+	case <-ch:
+	case <-s.ctx.Done():
+	}
 }
 
 func (s *Store[K, V]) Recover(version uint64, reader io.Reader) error {
